@@ -26,3 +26,11 @@ A(M("r7-centers-cached-behind-property", "C04", TT, "    @cached_property\n    d
 SET = [("    pairs = []\n", "    pairs = set()\n")] + [(f'pairs.append(({a}, {b}, "{t}"))', f'pairs.add(({a}, {b}, "{t}"))') for a, b, t in (("residue_i", "residue_j", "upward"), ("residue_i", "residue_j", "inward"), ("residue_j", "residue_i", "downward"), ("residue_j", "residue_i", "outward"))]
 A(M("r7-stackings-in-set", "C11", AN, None, None, "sorted-emission", edits=SET))
 A(M("r7-stackings-list-call-silent", ["C11", "C04"], AN, "    pairs = []\n", "    pairs = list()\n", kind="silent"))
+
+# ---- C04-r10: the pair loop lives in a generator helper consumed once by find_stackings (read as the loop it stands for)
+B410 = dict(base="C04-r10")
+A(M("r7-gen-orientation-lost", ["C04", "C11"], AN, "            else (residue_j, residue_i, topology)\n", "            else (residue_i, residue_j, topology)\n", None, **B410))
+A(M("r7-gen-labels-swapped", "C04", AN, '    (True, False): "inward",\n    (False, True): "downward",\n', '    (True, False): "downward",\n    (False, True): "inward",\n', "stack-labels", **B410))
+A(M("r7-gen-normal-angle-unit", "C04", AN, "    if math.degrees(angle) > STACKING_MAX_ANGLE_BETWEEN_NORMALS:\n        return False\n", "    if angle > STACKING_MAX_ANGLE_BETWEEN_NORMALS:\n        return False\n", None, **B410))
+A(M("r7-gen-unsorted", ["C04", "C11"], AN, "    pairs = sorted(generate_stacked_pairs(coordinates, coordinates_residue_map))\n", "    pairs = list(generate_stacked_pairs(coordinates, coordinates_residue_map))\n", None, **B410))
+A(M("r7-gen-order-test-silent", ["C04", "C11"], AN, "        in_order = bool(residue_i < residue_j)\n", "        in_order = residue_i < residue_j\n", kind="silent", **B410))
